@@ -22,7 +22,8 @@ BOUNDS = {
     "kalman": "kalman_filter (d_state, d_obs, T) in {(1,1,1),(1,1,2),(1,1,3),(2,1,1),(2,1,2),(1,2,1)} (thorough adds (1,1,4)); kalman_smoother "
               "{(1,1,1),(1,1,2),(1,1,3),(2,1,1),(1,2,1)}; step model (1,1),(2,1),(1,2), iterated (1,1) x 2 steps; "
               "all real model matrices, all symmetric positive-definite covariances (parametrised by their Cholesky factor), all observation values. "
-              "NOT covered (normal forms / path enumeration exceed the budget): d_obs = 2 with T >= 2, d_state = d_obs = 2, smoother with d_state = 2 and T >= 2",
+              "thorough also: smoother (2,1,2) on the sub-family with an upper-triangular (non-symmetric) A and diagonal S0, Q (affine + unbiased means at every step, slope and covariance identities at the last). "
+              "NOT covered (normal forms / path enumeration exceed the budget): d_obs = 2 with T >= 2, d_state = d_obs = 2, the general smoother with d_state = 2 and T >= 2",
 }
 ASSUMPTIONS = [
     "HMM: log-domain mode (Log a + Log b = Log ab; logsumexp's max shift cancelled by an identity rewrite whose side condition, a provably non-zero shift, is discharged by z3)",
@@ -51,6 +52,7 @@ def groups(tier, seed):
     ks = [(1, 1, 1), (1, 1, 2), (1, 1, 3), (2, 1, 1), (1, 2, 1)]
     if tier == "thorough":
         kf += [(1, 1, 4)]          # (2,1,3) and the smoother at T = 4 exceed the budget (measured > 15 min)
+        gs += ["ksr:2:1:2"]        # smoother, d_state = 2 with a non-symmetric A (structured sub-family), ~6 min
     gs += [f"kf:{a}:{b}:{c}" for a, b, c in kf] + [f"ks:{a}:{b}:{c}" for a, b, c in ks]
     gs += ["lgstep:1:1", "lgstep:2:1", "lgstep:1:2", "lgiter:1:1:2"]
     return gs
@@ -75,6 +77,10 @@ def run_group(g, gid):
         return kal.kalman(g, *nums, smoother=False)
     if kind == "ks":
         return kal.kalman(g, *nums, smoother=True)
+    if kind == "ksr":
+        return kal.kalman(g, *nums, smoother=True, structured=True)
+    if kind == "kfr":
+        return kal.kalman(g, *nums, smoother=False, structured=True)
     if kind == "lgstep":
         return kal.lg_step(g, *nums)
     if kind == "lgiter":
